@@ -212,6 +212,16 @@ pub fn do_send(w: &mut World, ctx: &mut Ctx, spec: &OpSpec) -> Result<Op, Fail> 
         len = max_mem.saturating_sub(ctx.src.pick(&[0usize, 1, 1199, 1200, 1201]));
         ctx.label("budget_sized_msg");
     }
+    // now and then exactly what the channel has left (the budget is inclusive: a message that fills it to the byte is accepted
+    // by the sender and must be by the receiver)
+    if ctx.src.chance(8) {
+        if let Some(avail) = w.sender(d).map(|s| s.channel_available_memory(ch)) {
+            if avail > 0 && avail <= 70_000 {
+                len = avail;
+                ctx.label("fills_budget_exactly");
+            }
+        }
+    }
     let mut n = 1 + if ctx.src.chance(64) { ctx.src.below(spec.burst.max(1)) } else { 0 };
     // now and then hundreds of tiny messages in one go (more than 255 fit into one packet)
     if ctx.src.chance(2) {
